@@ -81,8 +81,19 @@ class Interp:
         self.inlined[info["qualname"]] = info
         env = Env(globs=getattr(real_func, "__globals__", {}))
         env.owner_class = getattr(real_func, "_pyvc_owner", None)
+        self.bind_closure(real_func, env)
         self.bind_params(node, env, args, kwargs or {}, selfv)
         return self.exec_body_as_function(node, env, info["qualname"])
+
+    def bind_closure(self, fn, env):
+        """free variables of a nested real function (decorator closures) come from its closure cells"""
+        cells = getattr(fn, "__closure__", None) or ()
+        names = getattr(getattr(fn, "__code__", None), "co_freevars", ())
+        for n, c in zip(names, cells):
+            try:
+                env.vars[n] = self.from_real(c.cell_contents)
+            except ValueError:
+                pass
 
     def bind_params(self, node, env, args, kwargs, selfv=None):
         a = node.args
@@ -971,6 +982,8 @@ class Interp:
             return BoundMethod(obj, ("arr2", name))
         if isinstance(obj, SFile):
             return BoundMethod(obj, ("file", name))
+        if isinstance(obj, tuple) and len(obj) == 2 and obj[0] == "np":
+            return ("np", obj[1] + "." + name)
         if isinstance(obj, (list, dict, tuple, str)):
             return BoundMethod(obj, ("py", name))
         if hasattr(obj, "getattr"):
@@ -1071,6 +1084,10 @@ class Interp:
             return self.call_real(f[0], args, kwargs, lineno, owner=f[1])
         if hasattr(f, "sym_call"):
             return f.sym_call(self, args, kwargs, lineno)
+        if isinstance(f, SRec):
+            if f.has("__call__"):
+                return self.call(f.get("__call__"), args, kwargs, lineno, env)
+            return self.call_method(f, "__call__", args, kwargs, lineno)
         if isinstance(f, type):
             return self.construct(f, args, kwargs, lineno)
         if isinstance(f, (types.BuiltinFunctionType, types.FunctionType)) or callable(f):
@@ -1130,6 +1147,7 @@ class Interp:
             self.inlined[info["qualname"]] = info
             env = Env(globs=fn.__globals__)
             env.owner_class = owner
+            self.bind_closure(fn, env)
             self.bind_params(node, env, list(args), dict(kwargs))
             return self.exec_body_as_function(node, env, info["qualname"])
         if hasattr(fn, "__wrapped__"):
